@@ -20,6 +20,16 @@ func VerifC16State(s *Session) uint32 { return uint32(s.state) }
 // VerifC16ListenerState returns the raw state word of a Listener.
 func VerifC16ListenerState(l *Listener) uint32 { return uint32(l.state) }
 
+// VerifC16ChanWake runs the real (*Session).chanWake (what a channel-mode connection calls when it
+// stops); VerifC16WakeDrain takes a token out of the wake channel without blocking.
+func VerifC16ChanWake(s *Session) { s.chanWake() }
+func VerifC16WakeDrain(s *Session) {
+	select {
+	case <-s.wake:
+	default:
+	}
+}
+
 // VerifC16ListenerNil reports whether the Listener's socket field is nil (read at quiescence).
 func VerifC16ListenerNil(l *Listener) bool { return l.listener == nil }
 
